@@ -10,6 +10,7 @@ import (
 type userFunction struct {
 	Parameters []*ast.Identifier
 	Block      *ast.BlockStatement
+	program    *ast.Program // the template the function was written in
 }
 
 func (f *userFunction) String() string {
